@@ -8,6 +8,7 @@ import (
 	"sort"
 	"strconv"
 	"strings"
+	"unicode"
 
 	"github.com/tdakkota/docker-logql/internal/logql"
 	"github.com/tdakkota/docker-logql/internal/logql/lexer"
@@ -1066,7 +1067,7 @@ func fuses(a, b string) bool {
 
 // ---- corruption ----
 
-var c05Junk = []string{",", "(", ")", "{", "}", "[", "]", "|", "=", "==", "!=", "by", "bool", "5m", "5KB", "1", "x", "sum", "rate", "unwrap", "offset", "on", "|=", "or", "and"}
+var c05Junk = []string{"@", "$", "?", ";", "'x'", "&", "~", "\\", ":", ",", "(", ")", "{", "}", "[", "]", "|", "=", "==", "!=", "by", "bool", "5m", "5KB", "1", "x", "sum", "rate", "unwrap", "offset", "on", "|=", "or", "and"}
 
 func corruptLex(r *rand.Rand, ls []qlex) ([]qlex, string) {
 	out := append([]qlex{}, ls...)
@@ -1157,6 +1158,17 @@ func c05Impl(c C05Case) Sexp {
 		}
 		return A("ok")
 	}
+	// whatever the text: an identifier token is an identifier (a letter or underscore, then letters,
+	// digits, underscores) — stray characters must not become label names
+	if toks, err := lexer.Tokenize(c.Text, lexer.TokenizeOptions{}); err == nil {
+		for _, t := range toks {
+			if t.Type == lexer.Ident && !isIdentifierText(t.Text) {
+				if _, perr := logql.Parse(c.Text, logql.ParseOptions{}); perr == nil {
+					return L(A("non-identifier-accepted-as-identifier"), B(t.Text))
+				}
+			}
+		}
+	}
 	if c.Corrupt == "" {
 		// the lexer must produce exactly the tokens the query denotes
 		toks, _ := lexer.Tokenize(c.Text, lexer.TokenizeOptions{})
@@ -1189,6 +1201,18 @@ func c05Impl(c C05Case) Sexp {
 		return L(A("err"))
 	}
 	return L(A("ok"), tree)
+}
+
+func isIdentifierText(s string) bool {
+	for i, c := range s {
+		switch {
+		case c == '_' || unicode.IsLetter(c):
+		case i > 0 && unicode.IsDigit(c):
+		default:
+			return false
+		}
+	}
+	return s != ""
 }
 
 func c05Mk(ls []qlex, layout int64, corrupt string) C05Case {
